@@ -609,3 +609,30 @@ V("c17-silent-shape0", "C17", "silent", UT, "        n = len(sample)\n        sa
 V("c13-split-shuffles-caller-data", "C13", "fire", UT, "        n = len(sample)\n        sample = sample.copy()\n        rng.shuffle(sample)\n", "        sample = np.asarray(sample)\n        n = len(sample)\n        rng.shuffle(sample)\n",
   rule="R7.inputs-intact", what="np.asarray does not copy an ndarray: the caller's sample is shuffled, a second identical call differs")
 V("c13-lganm-sample-scales-model", "C13", "fire", LG, "        variances = self.variances.astype(float)\n", "        variances = self.variances\n", rule="R7.inputs-intact", what="interventions overwrite the model's own variances: later seeded calls differ")
+
+# ------------------------------------------------------------------------------- C08 label_edges passes (STEP rules; round-2 seed C08-r2-1 and neighbours)
+V("c08-step-transposed-parent-test", "C08", "fire", UT, "            if labelled[w, y] == 0:\n", "            if labelled[y, w] == 0:\n", rule="STEP.parent-test", what="w -> y looked up as y -> w: never an edge of a DAG below w -> x -> y")
+V("c08-step-compelled-into-y", "C08", "fire", UT, "        Ws = np.where(labelled[:, x] == COM)[0]\n", "        Ws = np.where(labelled[:, y] == COM)[0]\n", rule="STEP.compelled-into-x", what="pass runs over compelled edges into y")
+V("c08-step-compelled-out-of-x", "C08", "fire", UT, "        Ws = np.where(labelled[:, x] == COM)[0]\n", "        Ws = np.where(labelled[x, :] == COM)[0]\n", rule="STEP.compelled-into-x", what="row instead of column: edges out of x")
+V("c08-step-compel-wx", "C08", "fire", UT, "            else:\n                labelled[w, y] = COM\n", "            else:\n                labelled[w, x] = COM\n", rule="STEP.compel-w", what="relabels w -> x instead of w -> y")
+V("c08-step-compel-all-x", "C08", "fire", UT, "                labelled[list(pa(y, labelled)), y] = COM\n", "                labelled[list(pa(x, labelled)), x] = COM\n", rule="STEP.compel-all", what="compels the edges into x")
+V("c08-step-no-break", "C08", "fire", UT, "                end = True\n                break\n", "                end = True\n", rule="STEP.end-of-pass", what="pass continues after compelling all edges into y")
+V("c08-step-no-flag", "C08", "fire", UT, "                end = True\n                break\n", "                break\n", rule="STEP.end-of-pass", what="last step runs although the pass ended")
+V("c08-step-z-without-x-exclusion", "C08", "fire", UT, "            z_exists = len(pa(y, labelled) - {x} - pa(x, labelled)) > 0\n", "            z_exists = len(pa(y, labelled) - pa(x, labelled)) > 0\n", rule="STEP.z-exists", what="x itself counts as z: every edge compelled")
+V("c08-step-z-swapped", "C08", "fire", UT, "            z_exists = len(pa(y, labelled) - {x} - pa(x, labelled)) > 0\n", "            z_exists = len(pa(x, labelled) - {y} - pa(y, labelled)) > 0\n", rule="STEP.z-exists", what="roles of x and y swapped", accept_inconclusive=True)
+V("c08-step-z-subset", "C08", "fire", UT, "            z_exists = len(pa(y, labelled) - {x} - pa(x, labelled)) > 0\n", "            z_exists = not (pa(y, labelled) <= pa(x, labelled))\n", rule="STEP.z-exists", what="subset test forgets to exclude x")
+V("c08-step-labels-swapped", "C08", "fire", UT, "            labelled[unknown, y] = COM if z_exists else REV\n", "            labelled[unknown, y] = REV if z_exists else COM\n", rule="STEP.z-exists", what="compelled and reversible exchanged")
+V("c08-step-unknown-into-x", "C08", "fire", UT, "            unknown = np.where(labelled[:, y] == UNK)[0]\n", "            unknown = np.where(labelled[:, x] == UNK)[0]\n", rule="STEP.unknown-into-y", what="last step relabels column x", accept_inconclusive=True)
+V("c08-step-argmin", "C08", "fire", UT, "        (x, y) = np.unravel_index(np.argmax(unknown_edges), unknown_edges.shape)\n", "        (x, y) = np.unravel_index(np.argmin(unknown_edges), unknown_edges.shape)\n", rule="STEP.select", what="arg-min picks a masked (-inf) non-edge")
+V("c08-silent-step-z-reordered", "C08", "silent", UT, "            z_exists = len(pa(y, labelled) - {x} - pa(x, labelled)) > 0\n", "            z_exists = len(pa(y, labelled) - pa(x, labelled) - {x}) > 0\n", what="set differences commute")
+V("c08-silent-step-z-union", "C08", "silent", UT, "            z_exists = len(pa(y, labelled) - {x} - pa(x, labelled)) > 0\n", "            z_exists = not pa(y, labelled) <= (pa(x, labelled) | {x})\n", what="subset of the union")
+V("c08-silent-step-test-flipped", "C08", "silent", UT, "            if labelled[w, y] == 0:\n                labelled[list(pa(y, labelled)), y] = COM\n                end = True\n                break\n            # otherwise, label w -> y as compelled\n            else:\n                labelled[w, y] = COM\n",
+  "            if labelled[w, y] != 0:\n                labelled[w, y] = COM\n            else:\n                labelled[list(pa(y, labelled)), y] = COM\n                end = True\n                break\n", what="branches exchanged under the negated test")
+V("c08-silent-step-rev-first", "C08", "silent", UT, "            labelled[unknown, y] = COM if z_exists else REV\n", "            labelled[unknown, y] = REV if not z_exists else COM\n", what="negated selector")
+V("c08-order-y-forward", "C08", "fire", UT, "        y = sort(with_unlabelled, reversed(order))[0]\n", "        y = sort(with_unlabelled, order)[0]\n", rule="STEP.order-y", what="y taken from the front of the topological order")
+V("c08-order-x-reversed", "C08", "fire", UT, "        x = sort(unlabelled_parents_y, order)[0]\n", "        x = sort(unlabelled_parents_y, reversed(order))[0]\n", rule="STEP.order-x", what="x taken from the back of the topological order")
+V("c08-order-x-children", "C08", "fire", UT, "        unlabelled_parents_y = np.where(ordered[:, y] == -1)[0]\n", "        unlabelled_parents_y = np.where(ordered[y, :] == -1)[0]\n", rule="STEP.order-x", what="row y: children instead of parents")
+V("c08-order-store-transposed", "C08", "fire", UT, "        ordered[x, y] = i\n", "        ordered[y, x] = i\n", rule="STEP.order", what="label written at the reversed edge")
+V("c08-silent-order-y-heads", "C08", "silent", UT, "        with_unlabelled = np.unique(np.hstack((froms, tos)))\n", "        with_unlabelled = np.unique(tos)\n", what="the last endpoint in topological order is always a head: heads suffice")
+V("c08-silent-order-slice-reverse", "C08", "silent", UT, "        y = sort(with_unlabelled, reversed(order))[0]\n", "        y = sort(with_unlabelled, order[::-1])[0]\n", what="reversed via slicing")
+V("c07-skeleton-maximum", "C07", "fire", UT, "return ((A + A.T) != 0).astype(int)", "return (np.maximum(A, A.T) != 0).astype(int)", rule="PAT.result", what="negative-weight edges vanish from the skeleton that is_consistent_extension compares")
